@@ -122,7 +122,7 @@ Transparent(P, gz) ==
     IN
     /\ P.ok /\ P.complete /\ P.rest = <<>> /\ P.code = ExpCode
     /\ ListHas(ValuesOf(P.hdrs, N_vary), V_accept_encoding)          \* every status, also 204 and the substituted 304
-    /\ (cfg.pre = "ce" /\ ExpCode # 304) => ces = <<V_br>>          \* (a 304 drops the representation headers)
+    /\ (cfg.pre = "ce" /\ ExpCode = 200) => ces = <<V_br>>          \* (204 / 304 may drop the representation headers)
     /\ cfg.pre # "ce" => (ces = <<>> \/ enc)
     /\ enc => Compressible(cfg.ctype) /\ MentionsGzip(cfg.ae)
     /\ IF ExpCode # 200 THEN P.body = <<>>
